@@ -713,10 +713,18 @@ func (fc *FuncCtx) callFormula(x *ssa.Call) *bddNode {
 		}
 		return fc.A.atom("eq("+sa+","+sb+")", "eq", fc, x, []ssa.Value{va, vb}, sa, sb)
 	}
+	// a predicate handed to this function as a func literal and called here (walker(func(x T) bool {...})): when this
+	// function is analysed as part of the caller that wrote the literal, the call is the literal's body
+	if sc == nil && !c.IsInvoke() && isBoolType(x.Type()) && fc.depth < fc.A.MaxDepth+1 {
+		if cf, mc, owner := fc.closureArg(c.Value, 0); cf != nil && len(cf.Blocks) > 0 {
+			sub := fc.inlineClosure(cf, mc, owner, c.Args, x)
+			return sub.ResultFormula(0, sub.Formula)
+		}
+	}
 	// module predicate functions within the inlining bound: inline as formula of the returned bool; a side-effect-free
 	// predicate is looked through under every policy (it is a named sub-expression of the guard)
-	if sc != nil && fc.depth < fc.A.MaxDepth && len(sc.Blocks) > 0 &&
-		((fc.A.Inline != nil && fc.A.Inline(sc)) || (isPredicate(sc) && fc.A.isPureModuleFunc(sc))) {
+	if sc != nil && len(sc.Blocks) > 0 &&
+		((fc.depth < fc.A.MaxDepth && fc.A.Inline != nil && fc.A.Inline(sc)) || (fc.depth < fc.A.MaxDepth+2 && isPredicate(sc) && fc.A.isPureModuleFunc(sc))) {
 		sub := fc.inlineCtx(sc, c.Args, x)
 		return sub.ResultFormula(0, sub.Formula)
 	}
@@ -935,6 +943,62 @@ func (a *Analysis) globalNonNil(g *ssa.Global) bool {
 		}
 	}
 	return a.nonNilG[g]
+}
+
+// closureArg: v is a func-typed parameter of a function analysed as part of its caller, and the caller passed a
+// function literal: that literal and the context it was written in.
+func (fc *FuncCtx) closureArg(v ssa.Value, depth int) (*ssa.Function, *ssa.MakeClosure, *FuncCtx) {
+	prm, ok := v.(*ssa.Parameter)
+	if !ok || fc.parent == nil || depth > 3 {
+		return nil, nil, nil
+	}
+	av := fc.argVal[prm]
+	switch y := av.(type) {
+	case *ssa.MakeClosure:
+		if cf, ok := y.Fn.(*ssa.Function); ok {
+			return cf, y, fc.parent
+		}
+	case *ssa.Function:
+		// a literal that captures nothing (or a named function of the module)
+		if fc.A.P.InModule(y) {
+			return y, nil, fc.parent
+		}
+	case *ssa.Parameter:
+		return fc.parent.closureArg(y, depth+1)
+	}
+	return nil, nil, nil
+}
+
+// inlineClosure: the context of function literal cf (created by mc in owner's function) called at site in fc with args.
+func (fc *FuncCtx) inlineClosure(cf *ssa.Function, mc *ssa.MakeClosure, owner *FuncCtx, args []ssa.Value, site ssa.Instruction) *FuncCtx {
+	env := map[ssa.Value]string{}
+	for i, p := range cf.Params {
+		if i < len(args) {
+			env[p] = fc.AP(args[i])
+		}
+	}
+	for i, fv := range cf.FreeVars {
+		if mc != nil && i < len(mc.Bindings) {
+			env[fv] = owner.AP(mc.Bindings[i])
+		}
+	}
+	pfx := fc.prefix
+	if pfx == "" {
+		pfx = fc.A.P.FnName(fc.Fn) + "/"
+	}
+	prefix := fmt.Sprintf("%s%s@%s/", pfx, cf.Name(), site.(ssa.Value).Name())
+	sub := fc.A.ctxWith(cf, env, prefix, fc.depth+1)
+	if sub.parent == nil {
+		sub.parent = fc
+		sub.site = site
+		sub.argVal = map[ssa.Value]ssa.Value{}
+		for i, p := range cf.Params {
+			if i < len(args) {
+				sub.argVal[p] = args[i]
+			}
+		}
+	}
+	return sub
 }
 
 func (fc *FuncCtx) inlineCtx(sc *ssa.Function, args []ssa.Value, site ssa.Instruction) *FuncCtx {
